@@ -170,6 +170,10 @@ func genDec(r *Rand, p *Profile, sync bool) h.DecSpec {
 	if r.Bool(0.1) {
 		d.Cond = r.Range(1, 4)
 	}
+	if r.Bool(0.03) {
+		// slow, but healthy: one call takes seconds (a decorator that looks something up)
+		d.Slow, d.SlowNS = r.Range(1, 4), []int64{1500e6, 4e9}[r.Intn(2)]
+	}
 	if r.Bool(0.4) {
 		d.W = r.Range(0, 14)
 	}
